@@ -4,10 +4,11 @@
 //! through the crate's `BC64` trait, each shadowed by a `[bool; 64]`
 //! membership model that uses plain loops and the documented deck order.
 
-use crate::cardsref::{card_bit, card_name, card_word, spelling, spellings, ASCII_SEPARATORS, CARD_MASK, JUNK, SEPARATORS, TAILS};
+use crate::cardsref::{alias_spelling, card_bit, card_name, card_word, spelling, spellings, ASCII_SEPARATORS, CARD_MASK, JUNK, SEPARATORS, TAILS};
 use crate::json::J;
 use crate::rng::{fold, Rng, FNV_OFFSET};
 use crate::sim::{at, Obs, Outcome, Violation, World};
+use crate::world_c19::{build as build_container, reg_set as container_set, Reg, VIA_ARR};
 use ckc_rs::cards::binary_card::{BinaryCard, BC64};
 use ckc_rs::cards::five::Five;
 use ckc_rs::cards::four::Four;
@@ -17,6 +18,7 @@ use ckc_rs::cards::three::Three;
 use ckc_rs::cards::two::Two;
 
 pub const NREGS: usize = 8;
+pub const NHANDS: usize = 4;
 pub const MAX_LEN: usize = 48;
 pub const BLANK_SLOT: u8 = 52;
 pub const DRAIN_CUTOFF: usize = 65;
@@ -25,6 +27,8 @@ pub const DRAIN_CUTOFF: usize = 65;
 pub enum Tok {
     Card { idx: u8, spell: u8, tail: u8 },
     Junk(u8),
+    /// a non-card look-alike of a card spelling (see cardsref::alias_spelling)
+    Alias { idx: u8, spell: u8, mode: u8 },
 }
 
 #[derive(Clone, PartialEq, Debug)]
@@ -48,6 +52,12 @@ pub enum Op {
     Valid { r: u8 },
     Peel { r: u8 },
     Drain { r: u8 },
+    /// a live hand container (kept across steps) is created from slots …
+    HandNew { h: u8, n: u8, slots: [u8; 7] },
+    /// … receives a card or blank in one slot through its setter …
+    HandSet { h: u8, k: u8, slot: u8 },
+    /// … and is converted to a set at any point of its life
+    FromHand { dst: u8, h: u8 },
 }
 
 const K_HAND: usize = 0;
@@ -61,7 +71,10 @@ const K_SINGLE: usize = 7;
 const K_VALID: usize = 8;
 const K_PEEL: usize = 9;
 const K_DRAIN: usize = 10;
-const KINDS: [&str; 11] = ["BuildHand", "BuildText", "BuildRaw", "BuildFold", "FoldIn", "Has", "Count", "Single", "Valid", "Peel", "Drain"];
+const K_HNEW: usize = 11;
+const K_HSET: usize = 12;
+const K_FROMH: usize = 13;
+const KINDS: [&str; 14] = ["BuildHand", "BuildText", "BuildRaw", "BuildFold", "FoldIn", "Has", "Count", "Single", "Valid", "Peel", "Drain", "HandNew", "HandSet", "FromHand"];
 const FROM_NAMES: [&str; 8] = ["-", "-", "from_two", "from_three", "from_four", "from_five", "from_six", "from_seven"];
 
 // ---- probes -----------------------------------------------------------------
@@ -78,6 +91,11 @@ const PROBE_LIST: &[&str] = &[
     "hand_all_blank",
     "hand_all_distinct_cards",
     "hand_built_by_setters",
+    "hand_register_new",
+    "hand_register_set",
+    "hand_register_set_overwrites_card_also_held_elsewhere",
+    "from_hand_register",
+    "from_hand_register_with_setter_history",
     "text_build",
     "text_no_tokens",
     "text_with_junk_token",
@@ -91,6 +109,7 @@ const PROBE_LIST: &[&str] = &[
     "text_zero_for_ten",
     "text_lowercase_spelling",
     "text_card_token_with_tail",
+    "text_lookalike_alias_token",
     "raw_empty",
     "raw_full_deck",
     "raw_with_overflow_bits",
@@ -159,6 +178,11 @@ struct P {
     hand_all_blank: usize,
     hand_distinct: usize,
     hand_setters: usize,
+    hreg_new: usize,
+    hreg_set: usize,
+    hreg_set_dup: usize,
+    hreg_from: usize,
+    hreg_from_hist: usize,
     text: usize,
     text_none: usize,
     text_junk: usize,
@@ -172,6 +196,7 @@ struct P {
     text_zero: usize,
     text_lower: usize,
     text_tail: usize,
+    text_alias: usize,
     raw_empty: usize,
     raw_full: usize,
     raw_over: usize,
@@ -234,6 +259,11 @@ fn probes() -> &'static P {
         hand_all_blank: pi("hand_all_blank"),
         hand_distinct: pi("hand_all_distinct_cards"),
         hand_setters: pi("hand_built_by_setters"),
+        hreg_new: pi("hand_register_new"),
+        hreg_set: pi("hand_register_set"),
+        hreg_set_dup: pi("hand_register_set_overwrites_card_also_held_elsewhere"),
+        hreg_from: pi("from_hand_register"),
+        hreg_from_hist: pi("from_hand_register_with_setter_history"),
         text: pi("text_build"),
         text_none: pi("text_no_tokens"),
         text_junk: pi("text_with_junk_token"),
@@ -247,6 +277,7 @@ fn probes() -> &'static P {
         text_zero: pi("text_zero_for_ten"),
         text_lower: pi("text_lowercase_spelling"),
         text_tail: pi("text_card_token_with_tail"),
+        text_alias: pi("text_lookalike_alias_token"),
         raw_empty: pi("raw_empty"),
         raw_full: pi("raw_full_deck"),
         raw_over: pi("raw_with_overflow_bits"),
@@ -300,8 +331,8 @@ fn probes() -> &'static P {
     })
 }
 
-// cell = (op kind 11) x (cards-in-register bucket 7) x (has overflow 2) x (result class 4)
-const CELL_BITS: usize = 11 * 7 * 2 * 4;
+// cell = (op kind 14) x (cards-in-register bucket 7) x (has overflow 2) x (result class 4)
+const CELL_BITS: usize = 14 * 7 * 2 * 4;
 fn bucket(n: u32) -> usize {
     match n {
         0 => 0,
@@ -526,6 +557,7 @@ pub fn text_of(tokens: &[Tok], seps: &[u8], lead: u8, trail: u8) -> String {
                 s.push_str(TAILS[*tail as usize % TAILS.len()]);
             }
             Tok::Junk(j) => s.push_str(JUNK[*j as usize % JUNK.len()]),
+            Tok::Alias { idx, spell, mode } => s.push_str(&alias_spelling(*idx as usize % 52, *spell as usize, *mode as usize)),
         }
     }
     if trail > 0 {
@@ -559,6 +591,8 @@ impl C15 {
         let mut regs: [BinaryCard; NREGS] = [0; NREGS];
         let mut model: [Set; NREGS] = [Set::EMPTY; NREGS];
         let mut ctx = Ctx { h: FNV_OFFSET, nontrivial: false };
+        let mut hands: [Option<Reg>; NHANDS] = [None; NHANDS];
+        let mut hand_model: [(u8, [u8; 7], u32); NHANDS] = [(0, [BLANK_SLOT; 7], 0); NHANDS]; // (size, slots, setter calls)
         let mut prev_kind: Option<usize> = None;
         let mut kinds_used = 0u64;
 
@@ -662,6 +696,11 @@ impl C15 {
                             Tok::Junk(_) => {
                                 junk = true;
                                 pending_junk = true;
+                            }
+                            Tok::Alias { .. } => {
+                                junk = true;
+                                pending_junk = true;
+                                obs.hit(p.text_alias);
                             }
                         }
                     }
@@ -1018,6 +1057,97 @@ impl C15 {
                     }
                     touched = Some(r);
                 }
+                Op::HandNew { h, n, slots } => {
+                    let (hh, n) = (*h as usize % NHANDS, (*n as usize).clamp(2, 7));
+                    sub = FROM_NAMES[n];
+                    at(step, kind, sub);
+                    let mut w = [0u32; 7];
+                    for k in 0..n {
+                        w[k] = slot_word(slots[k]);
+                    }
+                    hands[hh] = Some(build_container(n, VIA_ARR, &w).0);
+                    let mut sl = [BLANK_SLOT; 7];
+                    sl[..n].copy_from_slice(&slots[..n]);
+                    hand_model[hh] = (n as u8, sl, 0);
+                    obs.hit(p.hreg_new);
+                    obs.cell(cell(kind, 0, false, n - 2));
+                    ctx.h = fold(ctx.h, (hh as u64) << 8 | n as u64);
+                    for k in 0..n {
+                        ctx.h = fold(ctx.h, slots[k] as u64);
+                    }
+                    if obs.tracing() {
+                        let names: Vec<String> = sl[..n].iter().map(|s| if *s < 52 { card_name(*s as usize) } else { "__".to_string() }).collect();
+                        obs.log(format!("#{} hand{} := {} [{}]", step, hh, &FROM_NAMES[n][5..], names.join(" ")));
+                    }
+                }
+                Op::HandSet { h, k, slot } => {
+                    let (hh, k) = (*h as usize % NHANDS, *k as usize);
+                    let n = hand_model[hh].0 as usize;
+                    if hands[hh].is_none() || k >= n {
+                        if obs.tracing() {
+                            obs.log(format!("#{} hand{} set slot {}: not applicable, no-op", step, hh, k));
+                        }
+                    } else {
+                        sub = FROM_NAMES[n];
+                        at(step, kind, sub);
+                        let old = hand_model[hh].1[k];
+                        if old < 52 && (0..n).any(|j| j != k && hand_model[hh].1[j] == old) {
+                            obs.hit(p.hreg_set_dup);
+                        }
+                        container_set(hands[hh].as_mut().unwrap(), k, slot_word(*slot));
+                        hand_model[hh].1[k] = if *slot < 52 { *slot } else { BLANK_SLOT };
+                        hand_model[hh].2 += 1;
+                        obs.hit(p.hreg_set);
+                        obs.cell(cell(kind, 0, false, (k > 3) as usize * 2 + (*slot < 52) as usize));
+                        ctx.h = fold(ctx.h, (hh as u64) << 16 | (k as u64) << 8 | *slot as u64);
+                        if obs.tracing() {
+                            obs.log(format!("#{} hand{}.set slot {} := {}", step, hh, k, if *slot < 52 { card_name(*slot as usize) } else { "__".to_string() }));
+                        }
+                    }
+                }
+                Op::FromHand { dst, h } => {
+                    let (d, hh) = (*dst as usize % NREGS, *h as usize % NHANDS);
+                    match hands[hh] {
+                        None => {
+                            if obs.tracing() {
+                                obs.log(format!("#{} from hand{}: not applicable, no-op", step, hh));
+                            }
+                        }
+                        Some(reg) => {
+                            let n = hand_model[hh].0 as usize;
+                            sub = FROM_NAMES[n];
+                            at(step, kind, sub);
+                            let v = match reg {
+                                Reg::Two(x) => BinaryCard::from_two(x),
+                                Reg::Three(x) => BinaryCard::from_three(x),
+                                Reg::Four(x) => BinaryCard::from_four(x),
+                                Reg::Five(x) => BinaryCard::from_five(x),
+                                Reg::Six(x) => BinaryCard::from_six(x),
+                                Reg::Seven(x) => BinaryCard::from_seven(x),
+                            };
+                            let mut m = Set::EMPTY;
+                            for k in 0..n {
+                                let sl = hand_model[hh].1[k];
+                                if sl < 52 {
+                                    m.insert_card(sl as usize);
+                                }
+                            }
+                            obs.hit(p.hreg_from);
+                            obs.hit(p.from + n - 2);
+                            if hand_model[hh].2 > 0 {
+                                obs.hit(p.hreg_from_hist);
+                            }
+                            obs.cell(cell(kind, m.cards(), false, n - 2));
+                            regs[d] = v;
+                            model[d] = m;
+                            ctx.h = fold(ctx.h, (d as u64) << 8 | hh as u64);
+                            if obs.tracing() {
+                                obs.log(format!("#{} s{} := BinaryCard::{}(hand{}) -> {:#018x} {}", step, d, sub, hh, v, set_str(v)));
+                            }
+                            touched = Some(d);
+                        }
+                    }
+                }
             }
 
             // S1: every register's card bits equal its model; overflow part tracked exactly
@@ -1086,13 +1216,13 @@ impl C15 {
 
 // ---- generation ----------------------------------------------------------------------
 
-// weights: Hand, Text, Raw, BuildFold, FoldIn, Has, Count, Single, Valid, Peel, Drain
-const MIXES: [[u32; 11]; 5] = [
-    [20, 14, 10, 6, 6, 8, 5, 4, 5, 6, 4],  // build heavy
-    [8, 5, 6, 3, 4, 5, 3, 3, 3, 30, 12],   // peel heavy
-    [8, 5, 6, 5, 30, 8, 4, 3, 4, 8, 4],    // fold heavy
-    [8, 5, 6, 3, 5, 24, 10, 9, 10, 5, 3],  // query heavy
-    [10, 8, 8, 4, 10, 12, 6, 5, 6, 12, 6], // balanced
+// weights: Hand, Text, Raw, BuildFold, FoldIn, Has, Count, Single, Valid, Peel, Drain, HandNew, HandSet, FromHand
+const MIXES: [[u32; 14]; 5] = [
+    [20, 14, 10, 6, 6, 8, 5, 4, 5, 6, 4, 5, 10, 8],  // build heavy
+    [8, 5, 6, 3, 4, 5, 3, 3, 3, 30, 12, 2, 4, 4],   // peel heavy
+    [8, 5, 6, 5, 30, 8, 4, 3, 4, 8, 4, 2, 4, 4],    // fold heavy
+    [8, 5, 6, 3, 5, 24, 10, 9, 10, 5, 3, 2, 4, 4],  // query heavy
+    [10, 8, 8, 4, 10, 12, 6, 5, 6, 12, 6, 3, 8, 6], // balanced
 ];
 
 struct Gen<'a> {
@@ -1100,6 +1230,7 @@ struct Gen<'a> {
     nregs: usize,
     overflow_ok: bool,
     shadow: [u64; NREGS],
+    hshadow: [(u8, [u8; 7]); NHANDS],
 }
 
 impl<'a> Gen<'a> {
@@ -1247,7 +1378,12 @@ impl<'a> Gen<'a> {
                 }
             } else {
                 let tail = if self.rng.chance(1, 16) { 1 + self.rng.below(TAILS.len() as u64 - 1) as u8 } else { 0 };
-                toks.push(Tok::Card { idx: self.rng.below(52) as u8, spell: self.rng.below(12) as u8, tail });
+                let (idx, spell) = (self.rng.below(52) as u8, self.rng.below(12) as u8);
+                toks.push(Tok::Card { idx, spell, tail });
+                if junk_rate > 0 && self.rng.chance(1, 8) {
+                    // a look-alike of the token just parsed, right behind it
+                    toks.push(Tok::Alias { idx, spell, mode: self.rng.below(6) as u8 });
+                }
             }
         }
         // separator class per text: plain spaces, ASCII whitespace, any Unicode whitespace
@@ -1324,7 +1460,7 @@ impl World for C15 {
         } else {
             p.regs_c
         });
-        let mut g = Gen { rng, nregs, overflow_ok, shadow: [0; NREGS] };
+        let mut g = Gen { rng, nregs, overflow_ok, shadow: [0; NREGS], hshadow: [(0, [BLANK_SLOT; 7]); NHANDS] };
         let mut ops = Vec::with_capacity(len);
         while ops.len() < len {
             // the first operation of a run always builds something
@@ -1406,10 +1542,38 @@ impl World for C15 {
                     }
                     Op::Peel { r: r as u8 }
                 }
-                _ => {
+                K_DRAIN => {
                     let r = g.live_reg();
                     g.shadow[r] &= !CARD_MASK;
                     Op::Drain { r: r as u8 }
+                }
+                K_HSET | K_FROMH if g.hshadow.iter().any(|h| h.0 > 0) => {
+                    let live: Vec<usize> = (0..NHANDS).filter(|h| g.hshadow[*h].0 > 0).collect();
+                    let h = *g.rng.pick(&live);
+                    let n = g.hshadow[h].0 as usize;
+                    if kind == K_HSET {
+                        let k = g.rng.usize_below(n);
+                        // often a card the hand already holds somewhere (duplicates are where
+                        // incremental bookkeeping goes wrong), sometimes blank, else any card
+                        let slot = match g.rng.below(6) {
+                            0 | 1 => g.hshadow[h].1[g.rng.usize_below(n)],
+                            2 => BLANK_SLOT,
+                            _ => g.rng.below(52) as u8,
+                        };
+                        g.hshadow[h].1[k] = slot;
+                        Op::HandSet { h: h as u8, k: k as u8, slot }
+                    } else {
+                        let dst = g.reg();
+                        g.shadow[dst] = model_of_slots(n, &g.hshadow[h].1);
+                        Op::FromHand { dst: dst as u8, h: h as u8 }
+                    }
+                }
+                _ => {
+                    let h = g.rng.usize_below(NHANDS);
+                    let n = 2 + g.rng.usize_below(6);
+                    let slots = g.slots(n);
+                    g.hshadow[h] = (n as u8, slots);
+                    Op::HandNew { h: h as u8, n: n as u8, slots }
                 }
             };
             ops.push(op);
@@ -1495,6 +1659,17 @@ impl World for C15 {
             }
             out.push((format!("every spelling of {}", card_name(i as usize)), ops));
         }
+        for i in 0..52u8 {
+            let mut ops = Vec::new();
+            for sp in 0..spellings(i as usize) as u8 {
+                for mode in 0..6u8 {
+                    ops.push(Op::BuildText { dst: 0, tokens: vec![Tok::Card { idx: i, spell: sp, tail: 0 }, Tok::Alias { idx: i, spell: sp, mode }], seps: vec![0], lead: 0, trail: 0 });
+                    ops.push(Op::BuildText { dst: 1, tokens: vec![Tok::Alias { idx: i, spell: sp, mode }], seps: vec![], lead: 0, trail: 0 });
+                    ops.push(Op::Valid { r: 1 });
+                }
+            }
+            out.push((format!("look-alike aliases of {}", card_name(i as usize)), ops));
+        }
         let whole: Vec<Tok> = (0..52u8).rev().map(|i| Tok::Card { idx: i, spell: i % 12, tail: 0 }).collect();
         out.push(("whole deck as text, reversed, then drain".into(), vec![Op::BuildText { dst: 0, tokens: whole.clone(), seps: (0..51).map(|i| i as u8 % 12).collect(), lead: 8, trail: 4 }, Op::Count { r: 0 }, Op::Drain { r: 0 }]));
         let mut junky: Vec<Tok> = Vec::new();
@@ -1557,6 +1732,34 @@ impl World for C15 {
                 ops
             },
         ));
+        // live hand containers: a duplicate is overwritten through a setter, then converted; every size
+        for n in 2..=7u8 {
+            let mut ops = Vec::new();
+            for a in [0u8, 17, 51] {
+                for k in 0..n {
+                    for j in 0..n {
+                        if j == k {
+                            continue;
+                        }
+                        let mut slots = [BLANK_SLOT; 7];
+                        for t in 0..n as usize {
+                            slots[t] = ((a as usize + 3 * t + 1) % 52) as u8;
+                        }
+                        slots[k as usize] = a;
+                        slots[j as usize] = a;
+                        ops.push(Op::HandNew { h: 0, n, slots });
+                        ops.push(Op::FromHand { dst: 0, h: 0 });
+                        ops.push(Op::HandSet { h: 0, k, slot: (a + 5) % 52 }); // one copy replaced: the other still holds the card
+                        ops.push(Op::FromHand { dst: 1, h: 0 });
+                        ops.push(Op::HandSet { h: 0, k: j, slot: BLANK_SLOT }); // now it is really gone
+                        ops.push(Op::FromHand { dst: 2, h: 0 });
+                        ops.push(Op::HandSet { h: 0, k, slot: a }); // and back
+                        ops.push(Op::FromHand { dst: 3, h: 0 });
+                    }
+                }
+            }
+            out.push((format!("hand register {}: overwrite one of two equal cards, convert", FROM_NAMES[n as usize]), ops));
+        }
         // folds
         out.push((
             "fold the deck card by card, then fold halves together".into(),
@@ -1593,6 +1796,9 @@ impl World for C15 {
             Op::Valid { .. } => K_VALID,
             Op::Peel { .. } => K_PEEL,
             Op::Drain { .. } => K_DRAIN,
+            Op::HandNew { .. } => K_HNEW,
+            Op::HandSet { .. } => K_HSET,
+            Op::FromHand { .. } => K_FROMH,
         }
     }
 
@@ -1619,6 +1825,7 @@ impl World for C15 {
                             .map(|t| match t {
                                 Tok::Card { idx, spell, tail } => J::obj().with("card", u(*idx)).with("spell", u(*spell)).with("tail", u(*tail)),
                                 Tok::Junk(j) => J::obj().with("junk", u(*j)),
+                                Tok::Alias { idx, spell, mode } => J::obj().with("alias_of", u(*idx)).with("spell", u(*spell)).with("mode", u(*mode)),
                             })
                             .collect(),
                     ),
@@ -1642,6 +1849,14 @@ impl World for C15 {
             Op::Valid { r } => J::obj().with("op", J::str("Valid")).with("r", u(*r)),
             Op::Peel { r } => J::obj().with("op", J::str("Peel")).with("r", u(*r)),
             Op::Drain { r } => J::obj().with("op", J::str("Drain")).with("r", u(*r)),
+            Op::HandNew { h, n, slots } => J::obj()
+                .with("op", J::str("HandNew"))
+                .with("h", u(*h))
+                .with("n", u(*n))
+                .with("slots", J::Arr(slots[..(*n as usize).clamp(2, 7)].iter().map(|s| u(*s)).collect()))
+                .with("slot_names", J::Arr(slots[..(*n as usize).clamp(2, 7)].iter().map(|s| slot_name(*s)).collect())),
+            Op::HandSet { h, k, slot } => J::obj().with("op", J::str("HandSet")).with("h", u(*h)).with("slot_index", u(*k)).with("card", u(*slot)).with("card_name", slot_name(*slot)),
+            Op::FromHand { dst, h } => J::obj().with("op", J::str("FromHand")).with("dst", u(*dst)).with("h", u(*h)),
         }
     }
 
@@ -1665,6 +1880,8 @@ impl World for C15 {
                 for t in arr {
                     if let Some(c) = t.get("card") {
                         tokens.push(Tok::Card { idx: c.as_u64().ok_or("bad card")? as u8, spell: t.get("spell").and_then(|x| x.as_u64()).unwrap_or(0) as u8, tail: t.get("tail").and_then(|x| x.as_u64()).unwrap_or(0) as u8 });
+                    } else if let Some(a) = t.get("alias_of") {
+                        tokens.push(Tok::Alias { idx: a.as_u64().ok_or("bad alias")? as u8, spell: t.get("spell").and_then(|x| x.as_u64()).unwrap_or(0) as u8, mode: t.get("mode").and_then(|x| x.as_u64()).unwrap_or(0) as u8 });
                     } else if let Some(jk) = t.get("junk") {
                         tokens.push(Tok::Junk(jk.as_u64().ok_or("bad junk")? as u8));
                     } else {
@@ -1693,6 +1910,16 @@ impl World for C15 {
             "Valid" => Ok(Op::Valid { r: u8f("r")? }),
             "Peel" => Ok(Op::Peel { r: u8f("r")? }),
             "Drain" => Ok(Op::Drain { r: u8f("r")? }),
+            "HandNew" => {
+                let arr = j.get("slots").and_then(|x| x.as_arr()).ok_or("HandNew: missing slots")?;
+                let mut slots = [BLANK_SLOT; 7];
+                for (k, x) in arr.iter().take(7).enumerate() {
+                    slots[k] = x.as_u64().ok_or("HandNew: bad slot")? as u8;
+                }
+                Ok(Op::HandNew { h: u8f("h")?, n: u8f("n")?, slots })
+            }
+            "HandSet" => Ok(Op::HandSet { h: u8f("h")?, k: u8f("slot_index")?, slot: u8f("card")? }),
+            "FromHand" => Ok(Op::FromHand { dst: u8f("dst")?, h: u8f("h")? }),
             other => Err(format!("unknown op {}", other)),
         }
     }
@@ -1788,6 +2015,15 @@ impl World for C15 {
                 }
             }
             Op::Drain { r } => out.push(Op::Peel { r: *r }),
+            Op::HandNew { h, n, slots } => {
+                for k in 0..(*n as usize).clamp(2, 7) {
+                    if slots[k] != BLANK_SLOT {
+                        let mut s2 = *slots;
+                        s2[k] = BLANK_SLOT;
+                        out.push(Op::HandNew { h: *h, n: *n, slots: s2 });
+                    }
+                }
+            }
             _ => {}
         }
         out
@@ -1800,7 +2036,7 @@ impl World for C15 {
                 J::Arr(
                     [
                         "BinaryCard::from_two .. from_seven (and through them from_ckc and the containers' accessors)",
-                        "containers handed to from_N built both by From<[u32; N]> and by Default + setter calls in varied order",
+                        "containers handed to from_N built by From<[u32; N]>, by Default + setter calls in varied order, and kept alive in hand registers that receive further setter calls between conversions",
                         "BinaryCard::from_index (and through it CKCNumber::from_index, the rank/suit character parsers, PokerCard::create/filter)",
                         "BC64::fold_in, has, number_of_cards, is_single_card, is_valid, peel (and through it BinaryCard::DECK)",
                     ]
